@@ -308,7 +308,7 @@ func init() {
 	// ---------- G4: layering (who may call) ----------
 
 	register(&Rule{
-		ID: "C02.R4", Props: []string{"C02", "C14", "C19"}, Min: 2,
+		ID: "C02.R4", Props: []string{"C02", "C14", "C19", "C13"}, Min: 2,
 		Doc: "source-formatting helpers stay in the formatter: the attribute whitespace normaliser (helpers.FormatAttr) and the formatter's whitespace filter are never reachable from the render entry points, and inside the formatter the whitespace-dropping child filter is not reachable from the <pre>/raw-text renderers — rendering passes attribute values through unchanged, and <pre> content keeps every text node",
 		Run: func(p *Prog, c *Ctx) {
 			fa := p.MustFn("helpers.FormatAttr")
@@ -719,6 +719,37 @@ func allowedProducer(n string) bool {
 // copiesAttrs: fn returns a fresh node whose Attr field is assigned a copy (append onto a nil/fresh
 // slice) of the source's attributes — directly or by delegating to such a function and then
 // re-assigning Attr from a copy.
+// fnStoresBoth: some single store of an Attr field may hold the source's own list or a copy (a φ of both).
+func fnStoresBoth(fn *ssa.Function) bool {
+	both := false
+	eachInstr(fn, func(in ssa.Instruction) {
+		st, ok := in.(*ssa.Store)
+		if !ok {
+			return
+		}
+		fv := fieldVar(st.Addr)
+		if fv == nil || !fieldIs(fv, "Attr") {
+			return
+		}
+		ph, ok := st.Val.(*ssa.Phi)
+		if !ok {
+			return
+		}
+		sh, cp := false, false
+		for _, e := range ph.Edges {
+			if f := loadedField(e); f != nil && fieldIs(f, "Attr") {
+				sh = true
+			} else {
+				cp = true
+			}
+		}
+		if sh && cp {
+			both = true
+		}
+	})
+	return both
+}
+
 func copiesAttrs(p *Prog, fn *ssa.Function, seen map[*ssa.Function]bool) bool {
 	if seen[fn] || !inModule(fn) || len(fn.Blocks) == 0 {
 		return false
@@ -738,33 +769,46 @@ func copiesAttrs(p *Prog, fn *ssa.Function, seen map[*ssa.Function]bool) bool {
 		if fv == nil || !fieldIs(fv, "Attr") {
 			return
 		}
-		// value: load of src.Attr (shared) or append(nil/fresh, src.Attr...) (copy)
-		if f := loadedField(st.Val); f != nil && fieldIs(f, "Attr") {
-			if ld, ok := st.Val.(*ssa.UnOp); ok {
-				if fa, ok := ld.X.(*ssa.FieldAddr); ok && fa.X == src {
-					shares = true
-					return
+		// value: load of src.Attr (shared) or append(nil/fresh, src.Attr...) (copy); a helper such as
+		// `copyAttrs` (copy when non-empty, else nil) arrives inlined as a φ of both
+		leaves := []ssa.Value{st.Val}
+		if _, isPhi := st.Val.(*ssa.Phi); isPhi {
+			leaves = p.origins(st.Val, OriginOpts{})
+		}
+		for _, val := range leaves {
+			if f := loadedField(val); f != nil && fieldIs(f, "Attr") {
+				if ld, ok := val.(*ssa.UnOp); ok {
+					if fa, ok := ld.X.(*ssa.FieldAddr); ok && fa.X == src {
+						shares = true
+						continue
+					}
 				}
 			}
-		}
-		if cl, ok := st.Val.(*ssa.Call); ok && strings.HasPrefix(calleeName(&cl.Call), "slices.Clone") {
-			copies = true // slices.Clone(src.Attr): a fresh backing array
-			return
-		}
-		if cl := isCallNamed(st.Val, "builtin.append"); cl != nil {
-			base := cl.Call.Args[0]
-			if isNilConst(base) {
-				copies = true
-				return
+			if cl, ok := val.(*ssa.Call); ok && strings.HasPrefix(calleeName(&cl.Call), "slices.Clone") {
+				copies = true // slices.Clone(src.Attr): a fresh backing array
+				continue
 			}
-			for _, o := range p.origins(base, OriginOpts{}) {
-				switch o.(type) {
-				case *ssa.Const, *ssa.MakeSlice, *ssa.Alloc:
+			if cl := isCallNamed(val, "builtin.append"); cl != nil {
+				base := cl.Call.Args[0]
+				if isNilConst(base) {
 					copies = true
+					continue
+				}
+				for _, o := range p.origins(base, OriginOpts{}) {
+					switch o.(type) {
+					case *ssa.Const, *ssa.MakeSlice, *ssa.Alloc:
+						copies = true
+					}
 				}
 			}
 		}
 	})
+	if copies && shares {
+		// (one store that may hold either: not a private list on every path)
+		if fnStoresBoth(fn) {
+			return false
+		}
+	}
 	if copies {
 		return true // a later copy overrides an earlier share (ShallowCloneWithAttrs = CloneNode + copy)
 	}
